@@ -142,6 +142,16 @@ check(
     "DESIGN.md section 5 (C17)",
 )
 
+check(
+    "C16",
+    "exploration",
+    "Excited-state sessions: one Molecule object followed along neighbouring geometries with the Davidson solver's history carried (amplitudes, orbitals, density), guess reuse on/off, faults on the carried amplitudes (re-orthonormalised noise, stale by two geometries, permuted order, one vector replaced) and the available-memory probe set so that the subspace limit lies anywhere between 2n+3 and the full space (which also switches on chunking of the sigma build). Every solve is compared with a dense reference (the code's own sigma routine applied to unit vectors, then eigh; RPA through (A-B)^1/2 (A+B) (A-B)^1/2): lowest-n energies within 10 x tolerance, ascending, positive, orthonormal amplitudes, eigen-residual, RPA <= CIS, every row of a homogeneous batch and every member of a mixed batch against its own reference.",
+    "The reference uses the code's sigma routine (operator correctness is C06, not applicable). Guess reuse is generated only where the library implements it (homogeneous CIS); RPA and mixed batches see history through the carried density/orbitals. The symmetry-blocked skipped-root defect is a committed known finding matched by its signature.",
+    "deterministic simulation: seeded solver histories with faults on carried state and a simulator-owned environment probe (available memory), checked against a dense reference model",
+    "scfsim",
+    "DESIGN.md section 5 (C16)",
+)
+
 PENDING = {}
 
 
